@@ -260,7 +260,7 @@ def gen_iface(rnd, idx):
         methods.append({"name": "Hook", "params": [{"name": "", "kind": rnd.choice(FUNC_KINDS)}], "results": [],
                         "variadic": None, "keep_nil": True})
     # some interfaces get their first method through an embedded interface (same method set)
-    return {"name": "I%d" % idx, "generic": generic, "methods": methods,
+    return {"name": "I%d" % idx, "generic": generic, "methods": methods, "alias_funcs": rnd.random() < 0.5,
             "embed": (not generic) and len(methods) >= 2 and rnd.random() < 0.35}
 
 
@@ -299,8 +299,10 @@ def iface_src(pkg, it):
         lines[0] = "\tB%s" % it["name"]
     return (("package %s\n\ntype LN int\ntype LC interface{ ~int | ~int64 }\n\n// CM can clone itself.\ntype CM map[string]int\n\n"
              "// Clone returns a copy.\nfunc (c CM) Clone() CM {\n\tout := CM{}\n\tfor k, v := range c {\n\t\tout[k] = v\n\t}\n\treturn out\n}\n\n" % pkg) + base +
-            ("// Panic, Nil and Append are func types named like builtins.\ntype Panic func(v any)\ntype Nil func()\ntype Append func(int)\n\n// %s is generated.\ntype %s%s interface {\n%s\n}\n"
-             % (it["name"], it["name"], tdecl, "\n".join(lines))))
+            ((("// Panic, Nil and Append are aliases of func types, named like builtins.\ntype Panic = func(v any)\ntype Nil = func()\ntype Append = func(int)\n\n"
+               if it.get("alias_funcs") else
+               "// Panic, Nil and Append are func types named like builtins.\ntype Panic func(v any)\ntype Nil func()\ntype Append func(int)\n\n") +
+              "// %s is generated.\ntype %s%s interface {\n%s\n}\n") % (it["name"], it["name"], tdecl, "\n".join(lines))))
 
 
 def gen_script(rnd, it, flags, n_ops):
@@ -643,7 +645,8 @@ def _run(cdir, seed, tier, root, log):
     for c in good:
         m0 = c["it"]["methods"][0]["name"]
         inst = "[string, int]" if c["it"]["generic"] else ""
-        body = ("m.Reset%sCalls()" % m0) if c["flags"]["resets"] else ""
+        # one method's reset and the whole-mock reset, concurrently with calls and accessors
+        body = ("m.Reset%sCalls(); m.ResetCalls()" % m0) if c["flags"]["resets"] else ""
         open(os.path.join(root, c["pkg"], "helpers.go"), "a").write(
             "\nfunc resetOne(m *%s%s) { %s }\n" % (c["mock"], inst, body))
     result = {"programs": len(good), "violations": [], "disagreements": [], "samples": [],
